@@ -1,7 +1,8 @@
 """C02 — shipped covariance models are positive semi-definite where they claim validity.
 
-stages: theorems props/C02.v (easy Bochner in any dimension, closure under linear maps / the sphere embedding /
-        Riemann mixtures, sign of the code's analytic spectra inside the bounds, |rho| <= 1) ;
+stages: corpus of past failures ; theorems props/C02.v (easy Bochner in any dimension, closure under linear maps / the
+        sphere embedding / Riemann mixtures, Linear valid in 1-D, sign of the code's analytic spectra inside the
+        bounds, |rho| <= 1) ;
         extracted model (bounds, check_dim, bound checks, elementary cor, analytic spectra) vs /repo ;
         probes of the property statement on the implementation: min eigenvalue of covariance matrices
         (lattices, clusters with near-coincident points, sphere, space-time), sign of the radial spectrum
@@ -223,8 +224,7 @@ def run(ctx, only=None):
                 "point-set kind / transformation) keys")
     ctx.trusted = [
         "Coq 8.16.1 kernel; stdlib Reals axioms + Classical_Prop.classic (Coquelicot RInt) as printed per theorem",
-        "sign facts assumed of scipy's special functions (explicit theorem hypotheses): gamma(x) > 0 for x > 0; gamma(0) > 0 "
-        "(scipy returns +inf, cut at 100 by the code) only for the JBessel bound edge; gammainc(s, x) >= 0 for s > 0, x >= 0; "
+        "sign facts assumed of scipy's special functions (explicit theorem hypotheses): gamma(x) > 0 for x > 0; gammainc(s, x) >= 0 for s > 0, x >= 0; "
         "hyp2f1(a, b, c, x) >= 0 for a, b, c > 0 and 0 <= x < 1.  J_nu enters squared: nothing assumed.",
         "hand model c02/C02_Model.v tied by executing the extraction (ExtrOcamlBasic, OCaml floats, scipy oracle co-process) "
         "against /repo on this run",
@@ -233,9 +233,9 @@ def run(ctx, only=None):
     ctx.not_proved = [
         "that each analytic spectral formula IS the Fourier transform of the correlation (property C04); the sign theorems "
         "are about the formula the code evaluates",
-        "validity of the nine models without analytic spectrum (Stable, Rational, Cubic, Linear, Circular, Spherical, "
+        "validity of eight of the nine models without analytic spectrum (Stable, Rational, Cubic, Circular, Spherical, "
         "SuperSpherical, TPLStable, TPLSimple): Askey/Schoenberg-type results are out of reach here; eigenvalue and "
-        "spectrum-sign probes only",
+        "spectrum-sign probes only (Linear IS proved valid in 1-D, the only dimension it accepts)",
         "TPLGaussian / TPLExponential spectra for len_low > 0 (a difference of two spectra: its sign needs monotonicity in "
         "the length scale, not just sign facts); probed",
         "|rho| <= 1 for the special-function correlations (Matern, Integral, HyperSpherical, SuperSpherical, JBessel, TPL*): probed",
@@ -245,10 +245,15 @@ def run(ctx, only=None):
     ctx.tie["cor (9 elementary classes)"] = "hand model + correspondence"
     ctx.tie["spectral_density (8 analytic classes)"] = "hand model + correspondence (scipy functions shared through the oracle)"
 
+    import time
+    t0 = time.time()
     proofs_ok = ctx.proofs("props/C02.v")
+    C.log("[C02] stage proofs   %6.1fs (includes waiting for the shared coq build lock)" % (time.time() - t0))
     tie_broken = []
     drv = None
+    t0 = time.time()
     ok, out = C.build_driver("c02")
+    C.log("[C02] stage driver   %6.1fs" % (time.time() - t0))
     if ok:
         drv = C.Driver("c02", oracle)
     else:
@@ -259,7 +264,6 @@ def run(ctx, only=None):
         ctx.sample(dict(correspondence_mismatch=what, case=case), limit=12)
         C.log("[C02] correspondence mismatch: %s %s" % (what, json.dumps(case, default=str)[:300]))
 
-    import time
     try:
         stages = [("corpus", lambda: corpus(ctx, gs)),
                   ("corr", lambda: correspondence(ctx, gs, gsp, check_arg_in_bounds, drv, rng, thorough, corr_fail) if drv is not None else None),
@@ -275,6 +279,8 @@ def run(ctx, only=None):
     finally:
         if drv:
             drv.close()
+    if getattr(ctx, "more_violations", 0):
+        ctx.notes.append("%d further failing inputs were found after the first 25 and not written out" % ctx.more_violations)
     if (tie_broken or not proofs_ok) and not [v for v in ctx.violations if not v["no_input"]]:
         ctx.violation("proof/tie", "proof obligations or the model/code tie of C02 no longer check: %s" % (
             "; ".join(tie_broken[:4]) or getattr(ctx, "proof_failure", {}).get("output_tail", "")[-600:]),
@@ -438,6 +444,9 @@ def finding_key(name, cfg, sig, what):
 def report(ctx, stage, what, case, name, cfg, sig, kind):
     # Integral: exp_int's inc_gamma recursion overflows for large non-integer orders at tiny arguments (known, shared with C03)
     key = finding_key(name, cfg, sig, kind)
+    if len(ctx.violations) >= 25:          # enough failing inputs recorded for one run; keep counting quietly
+        ctx.more_violations = getattr(ctx, "more_violations", 0) + 1
+        return
     nu = case.get("params", {}).get("nu", 0)
     nonfinite = any(w in str(case.get("value", "")) + str(case.get("min_eig", "")) for w in ("nan", "inf"))
     if name == "Integral" and nu > 30 and abs(nu / 2 - round(nu / 2)) > 1e-5 * (1 + nu / 2) and nonfinite:
@@ -558,9 +567,9 @@ def probe_spectrum(ctx, gs, rng, thorough):
 
 def probe_eig(ctx, gs, rng, thorough):
     """minimum eigenvalue of covariance matrices built by the implementation (cov_spatial: rotation + anisotropy)"""
-    n = 60 if thorough else 40
+    n = 80 if thorough else 40
     stage = "probe: minimum eigenvalue of the covariance matrix"
-    for name, cfg, d, sig, p in configs(gs, rng, thorough, 14 if thorough else 5):
+    for name, cfg, d, sig, p in configs(gs, rng, thorough, 20 if thorough else 5):
         for rep in range(3 if thorough else 2):
             L = float(rng.choice([0.3, 1.0, 5.0, 40.0]))
             kw = dict(len_scale=L, var=float(rng.choice([1.0, 2.5])))
